@@ -32,7 +32,7 @@ REQUIRED_BUCKETS = {"quick": ["grid:linear", "grid:log", "n:1", "n:2..9", "n:10.
                               "acceptance:open", "acceptance:cut", "via:Gxi", "via:DirectModel", "wavelength:short",
                               "acceptance:on-data-tof", "acceptance:on-data-mono", "order:permuted",
                               "via:DirectModel:data-edited-in-place", "grid:log-full-range",
-                              "via:Gxi:long-log-grid", "linear:curves-ending-at-different-q", "via:Gxi:threads", "fault:allocation-fails:raised"]}
+                              "via:Gxi:long-log-grid", "linear:curves-ending-at-different-q", "via:Gxi:threads", "fault:allocation-fails:raised", "via:DirectModel:single-precision-model", "xi<<s:per-point-relative"]}
 REQUIRED_BUCKETS["thorough"] = REQUIRED_BUCKETS["quick"]
 
 
@@ -223,6 +223,10 @@ def run_direct(case, rec):
             inv_ = float(np.exp(rng.uniform(math.log(30*qc_[0]), math.log(qc_[-1]/30))))
             if rep == 7:
                 inv_ = float(qc_[-1]/30)*float(rng.uniform(0.5, 1.0))     # a small structure: large q matter
+            if rep == 6:
+                inv_ = float(30*qc_[0])*float(rng.uniform(1.0, 3.0))      # a large structure: xi << s at the short lengths
+            # (the acceptance of the data object's wavelength cuts q at 2 pi/lambda: keep 1/s a factor 6 inside it as well)
+            inv_ = min(inv_, (2*math.pi/2.0)/6.0)
             rg = math.sqrt(1.5)/inv_
             rec.bucket("via:Gxi:long-log-grid")
         pars = {"rg": rg, "scale": float(rng.uniform(0.5, 2.0))}
@@ -237,17 +241,36 @@ def run_direct(case, rec):
         rec.check("background_does_not_leak", bool(np.array_equal(G, Gb)),
                   {"via": "Gxi", "no_background": G[:4], "with_background": Gb[:4]})
         rec.bucket("via:Gxi")
-        data = sdata.empty_sesans(xi, wavelength=float(rng.uniform(4, 10)))
+        data = sdata.empty_sesans(xi, wavelength=float(rng.uniform(4, 10)) if rep < 6 else 2.0)
         calc = direct_model.DirectModel(data, sascore.load_model("guinier"))
         G2 = calc(background=0.0, **pars)
         rec.check("gaussian_hankel_pair", bool(np.all(np.abs(G2 - exact) <= tol)),
                   {"via": "DirectModel", "rg": rg, "got": G2[:5], "exact": exact[:5]})
+        if rep >= 5:
+            # the same data with the model built in single precision: I(q) is single precision, the transform of it is not
+            calc32 = direct_model.DirectModel(data, sascore.load_model("guinier", dtype="single"))
+            G32 = np.asarray(calc32(background=0.0, **pars), float)
+            rec.check("gaussian_hankel_pair", bool(np.all(np.abs(G32 - exact) <= 2e-3*float(np.max(np.abs(exact))))),
+                      {"via": "DirectModel with a single-precision model", "rg": rg, "got": G32[:5], "exact": exact[:5],
+                       "worst_over_tol": float(np.max(np.abs(G32 - exact))/(2e-3*float(np.max(np.abs(exact)))))})
+            rec.bucket("via:DirectModel:single-precision-model")
+            if rep == 6:
+                # xi << s: G(xi) - G(0) is a small difference of two large sums; each point is still reproduced to the
+                # quadrature accuracy relative to its own value, in double and with a single-precision model alike
+                for lab_, g_ in (("double-precision model", np.asarray(G2, float)), ("single-precision model", G32)):
+                    rel_ = np.abs(g_ - exact)/np.abs(exact)
+                    okr = bool(np.all(rel_ <= 3e-3))
+                    rec.check("gaussian_hankel_pair", okr,
+                              None if okr else {"via": "DirectModel, " + lab_ + ", per-point relative error, xi << s", "rg": rg,
+                                                "xi_first": xi[:4], "relative_error_first": rel_[:4], "worst": float(np.max(rel_))})
+                rec.bucket("xi<<s:per-point-relative")
         G3 = calc(background=2.5, **pars)
         rec.check("background_does_not_leak", bool(np.array_equal(G2, G3)), {"via": "DirectModel"})
         # linear in scale
         G4 = calc(background=0.0, rg=rg, scale=3.0*pars["scale"])
         # G - G(0) cancels, so rounding is relative to G(0) ~ max|G|
-        rec.check("linear", core.close(G4, 3.0*G2, 1e-12, 1e-12*3*float(np.max(np.abs(G2)))),
+        g0_ = pars["scale"]/(2*math.pi*s*s)          # G(0) of this Gaussian: the size of the two sums whose difference is returned
+        rec.check("linear", core.close(G4, 3.0*G2, 1e-12, 1e-11*3*g0_),
                   {"via": "DirectModel scale x3", "max_abs_diff": float(np.max(np.abs(G4 - 3*G2)))})
         # a later call that leaves out what an earlier call on the same calculator set
         G6 = np.asarray(calc(rg=rg), float)
@@ -369,7 +392,18 @@ def run_fault(case, rec):
                         raise MemoryError("injected: allocation of the %d x %d matrix failed" % (np.size(a), np.size(b)))
                 return real(a, b, *args, **kw)
             np.outer = faulty
-            outcome, got = None, None
+            real_j0 = sesans.j0
+
+            def faulty_j0(x, *args, **kw):
+                if np.size(x) > 10000:
+                    count[0] += 2
+                    if count[0] == 2:           # the first large Bessel evaluation fails, once
+                        raise MemoryError("injected: the Bessel step was cut short")
+                return real_j0(x, *args, **kw)
+            if target == 2:
+                sesans.j0 = faulty_j0          # (the second fault point is the Bessel evaluation instead of the allocation)
+                np.outer = real
+            outcome, got, T = None, None, None
             try:
                 if via == "SesansTransform":
                     T = sesans.SesansTransform(xi, xi, np.full(len(xi), 6.0), 2*math.pi/6.0, 1e7)
@@ -380,8 +414,18 @@ def run_fault(case, rec):
                 outcome = "returned"
             except MemoryError:
                 outcome = "MemoryError reached the caller"
+                if T is not None:
+                    # the object exists and its first evaluation was cut short: the same statement again (no fault now)
+                    try:
+                        qc = np.asarray(T.q_calc)
+                        got = np.asarray(T.apply(np.exp(-qc*qc*s_*s_/2)), float)
+                        outcome = "returned"
+                        rec.bucket("fault:first-evaluation-cut-short-then-repeated")
+                    except MemoryError:
+                        pass
             finally:
                 np.outer = real
+                sesans.j0 = real_j0
             ok = outcome != "returned" or bool(np.all(np.abs(got - exact) <= 1e-3*float(np.max(np.abs(exact)))))
             rec.check("gaussian_hankel_pair", ok,
                       None if ok else {"via": via + " with the %d. large allocation failing once" % target, "injected": count[0] >= target,
